@@ -107,6 +107,29 @@ def run(ctx):
         if not ok:
             res.find(key, ei.loc(gate_arm["sp"]), "the gate arm of expand_inner no longer calls %s: calibration parameters are not substituted" % need, "`DEFCAL RX(%t) 0: RZ(%t) 0` then `RX(1) 0` expands to RZ(%t) 0")
 
+    # ---- R1c positional pairing: a zip of calibration-side and gate-side sequences must pair *unfiltered* sequences
+    # (filtering one side before the zip shifts the pairing); filtering after the zip is fine
+    SHIFTING = {"filter", "filter_map", "skip", "skip_while", "step_by", "rev", "flat_map", "flatten", "take_while", "dedup", "chain"}
+    nzip = 0
+    for g in [ei] + db.closures_of(ei):
+        for bb, t, c in g.calls():
+            if not (c and c.get("name") == "zip" and c.get("trait") == "std::iter::Iterator"):
+                continue
+            nzip += 1
+            bad = []
+            for a in t["args"]:
+                from qv.engine import expr_calls
+
+                for cc in expr_calls(fn_expr_operand(g, a)):
+                    nm = cc[1].rsplit("::", 1)[-1]
+                    if nm in SHIFTING:
+                        bad.append(nm)
+            key = "K10|positional-pairing|%s#%d" % (g.path, nzip - 1)
+            res.site(key, True, {"fn": g.path, "loc": g.loc(t["sp"]), "shifting_adaptors_before_zip": bad, "verdict": "ok" if not bad else "VIOLATION"})
+            if bad:
+                res.find(key, g.loc(t["sp"]), "the calibration's formals are paired with the gate's actuals by a zip whose operand was first passed through %s: the n-th *remaining* formal is bound to the n-th actual instead of the actual at its own position" % sorted(set(bad)), "`DEFCAL CZ 0 q:\n\tFENCE 0 q` then `CZ 0 1` expands to `FENCE 0 0`")
+    res.count("formal_actual_zips", nzip, floor=1)
+
     # ---- R2 measurement arm dependence
     reads = field_reads(ei, meas_arm["body_sp"], MEAS)
     for fld in ("qubit", "target"):
